@@ -45,8 +45,8 @@ THOROUGH_ONLY = {"deq2": [[3], [4]], "deq3": [[4]], "nd3": [[0], [1], [2], [3], 
 
 def tas(be, n):
     """what try_as_slice answers for container `be` of length n"""
-    if be in ("vec", "slc", "arc", "nd", "ndv1", "ndrev"):
-        return "some"
+    if be in ("vec", "slc", "arc", "nd", "ndv1"):
+        return "some"          # (a reversed view offers a slice only for n <= 1 since fix 8d61a29: falls through below)
     if be in ("arr", "opt"):
         return "none"
     if be.startswith("deq"):
@@ -99,7 +99,11 @@ def tas_only(be, ns, thorough):
     for n in ns:
         L += ["    {", f"        let xs: [{T}; {n}] = kani::any();", "        " + setup.replace("{N}", str(n)),
               f"        acc_tas::<{T}, _, {n}>({ref}, &xs, &mut fl);", "    }"]
-    L.append('    kani::cover!(fl.tas_some, "try_as_slice offered a slice");')
+    kinds = {tas(be, n) for n in ns}
+    if "some" in kinds:
+        L.append('    kani::cover!(fl.tas_some, "try_as_slice offered a slice");')
+    if "none" in kinds:
+        L.append('    kani::cover!(fl.tas_none, "try_as_slice declined");')
     L.append("}")
     return "\n".join(L)
 
